@@ -178,6 +178,12 @@ func runC09(line string) string {
 		}
 		cl.mu.Unlock()
 	}
+	if sc == "stop-during-redirect" {
+		// a third master nobody has a connection to yet; all slots will be moved to it while requests are on their way
+		cl.mu.Lock()
+		cl.addNode(-1)
+		cl.mu.Unlock()
+	}
 	if sc == "stop-silent-backend" || sc == "stop-halfclosed-silent" {
 		cl.nodes[0].silent, cl.nodes[1].silent = true, true
 	}
@@ -426,7 +432,7 @@ func runC09(line string) string {
 			nw = "served" // descriptors could not be exhausted here: nothing observed
 		}
 		out += "new=" + nw + " "
-	case "stop-active", "drain-then-stop", "stop-silent-backend", "stop-backend-down", "stop-twice", "stop-stubborn-backend":
+	case "stop-active", "drain-then-stop", "stop-silent-backend", "stop-backend-down", "stop-twice", "stop-stubborn-backend", "stop-during-redirect":
 		waitListening()
 		settle(20 * time.Millisecond)
 		for i := 0; i < argn(2, 2); i++ {
@@ -441,6 +447,20 @@ func runC09(line string) string {
 			}
 		}
 		settle(30 * time.Millisecond)
+	}
+	if sc == "stop-during-redirect" {
+		// every slot now belongs to the third master; the two the proxy knows answer MOVED to a stream of 3000 requests per
+		// client: redirections are being followed (also right after Stop has emptied the table of backend connections)
+		// while Stop is running
+		cl.setLayout([][3]int{{0, 16383, 2}})
+		for _, c := range clients {
+			var buf []byte
+			for i := 0; i < 3000; i++ {
+				buf = append(buf, bulkArr([]byte("get"), []byte("k"+strconv.Itoa(i%40))).bytes()...)
+			}
+			go func(c net.Conn) { c.Write(buf) }(c)
+		}
+		time.Sleep(time.Duration(2+argn(2, 1)) * time.Millisecond)
 	}
 	if sc == "drain-then-stop" {
 		ok := within(3*time.Second, func() { p.StopListen() })
@@ -517,12 +537,20 @@ func runC09(line string) string {
 		out += fmt.Sprintf(" clients=OPEN:%d", openClients)
 	}
 	settle(40 * time.Millisecond)
-	cl.mu.Lock()
-	ob := int(atomic.LoadInt32(&echoConns))
-	for _, nd := range cl.nodes {
-		ob += len(nd.conns)
+	ob := 0
+	countBackends := func() bool {
+		cl.mu.Lock()
+		defer cl.mu.Unlock()
+		ob = int(atomic.LoadInt32(&echoConns))
+		for _, nd := range cl.nodes {
+			ob += len(nd.conns)
+		}
+		return ob == 0
 	}
-	cl.mu.Unlock()
+	if !countBackends() && sc == "stop-during-redirect" {
+		// the nodes notice that their peer has gone only after they have answered what was queued
+		waitFor(3*time.Second, countBackends)
+	}
 	if ob == 0 {
 		out += " backends=closed"
 	} else {
@@ -717,7 +745,7 @@ func init() {
 				}
 			}
 			lines = append(lines, "redis stop-silent-backend 2", "tcp register-after-stop", "redis stop-halfclosed-silent", "redis drain-while-binding", "tcp drain-while-binding", "tcp drain-during-bind", "tcp stop-during-bind", "tcp drain-after-accept",
-				"redis stop-after-conn-loss 3", "redis stop-after-conn-loss 2", "tcp accept-emfile", "redis accept-emfile", "redis stop-during-connect", "tcp stop-stubborn-backend 2")
+				"redis stop-after-conn-loss 3", "redis stop-after-conn-loss 2", "tcp accept-emfile", "redis accept-emfile", "redis stop-during-connect", "tcp stop-stubborn-backend 2", "redis stop-during-redirect 3", "redis stop-during-redirect 1")
 			for i := 0; i < 6; i++ {
 				lines = append(lines, fmt.Sprintf("tcp limit-burst %d %d", 1+r.intn(3), 6+r.intn(20)))
 				lines = append(lines, fmt.Sprintf("tcp register-burst %d %d", 1+r.intn(4), 32+r.intn(64)))
